@@ -1,5 +1,45 @@
+import NA.Model.DeleteUnused
 import NA.Core.IOUtil
-/-! Driver stub for C07 (not built yet): echoes its input. -/
-def main (_ : List String) : IO UInt32 := do
-  NA.IOUtil.eachLine id
-  return 0
+/-! Driver for C07 (Cisco clean-up): runs the model of `deleteUnused` on one command table per line.
+Input : entries separated by ';', each `id kind tagged clear cmds`; cmds separated by '+', each
+        `<needed><toDelete>|<refs, comma separated>|<subs separated by '&', each <needed>:<refs>>`
+Output: the change commands joined by ';' (`-` if none), or `NEVER-ENDS`. -/
+namespace NA.Drv.C07
+open NA.DelUnused NA.IOUtil
+
+def bit (s : String) : Option Bool := match s with | "0" => some false | "1" => some true | _ => none
+
+def parseSub (s : String) : Option Sub :=
+  match s.splitOn ":" with
+  | [n, r] => do pure ⟨← bit n, ← natList r⟩
+  | _ => none
+
+def parseCmd (s : String) : Option Cmd :=
+  match s.splitOn "|" with
+  | [bits, refs, subs] => do
+    let (n, t) ← match bits.toList with
+      | [a, b] => do pure (← bit (String.singleton a), ← bit (String.singleton b))
+      | _ => none
+    let ss ← (if subs.isEmpty then [] else subs.splitOn "&").mapM parseSub
+    pure ⟨n, t, ← natList refs, ss⟩
+  | _ => none
+
+def parseObj (s : String) : Option Obj :=
+  match s.splitOn " " with
+  | [i, k, t, c, cmds] => do
+    let cs ← (if cmds.isEmpty then [] else cmds.splitOn "+").mapM parseCmd
+    pure ⟨← i.toNat?, ← k.toNat?, ← bit t, ← bit c, cs⟩
+  | _ => none
+
+def answer (line : String) : String :=
+  match (if line.isEmpty then [] else line.splitOn ";").mapM parseObj with
+  | none => "bad-input"
+  | some w =>
+    match deleteUnused w with
+    | none => "NEVER-ENDS"
+    | some [] => "-"
+    | some cs => ";".intercalate cs
+
+end NA.Drv.C07
+
+def main : IO Unit := NA.IOUtil.eachLine NA.Drv.C07.answer
